@@ -12,10 +12,14 @@ namespace LunarVerif.C19
 
 def ticksPerSec : Nat := 8
 
-/-- Outcome of `gethostbyname(host)`. -/
+/-- Outcome of `gethostbyname(host)`.  `gaierror`, `herror`, `timeout` are subclasses of `OSError`
+    (= `socket.error`), which is what `_is_external_domain` catches. -/
 inductive Res where
   | ip (addr : IPv4)     -- returns the dotted quad `render addr`
-  | gaierror             -- raises `socket.gaierror` (an `OSError`, caught by the filter)
+  | gaierror             -- raises `socket.gaierror` (unknown host, temporary failure)
+  | oserror              -- raises a plain `OSError` (getaddrinfo EAI_SYSTEM: EMFILE, ENOMEM, ...)
+  | herror               -- raises `socket.herror`
+  | timeout              -- raises `socket.timeout` (`TimeoutError`)
   | unicodeErr           -- raises `UnicodeError` (IDNA: label empty or longer than 63)
 deriving Repr, DecidableEq
 
@@ -99,7 +103,10 @@ def isExternalIp (s : Str) : Except DecExc Bool :=
 def isExternalDomain (cfg : Cfg) (h : Str) : Except DecExc (Option Bool) :=
   match cfg.resolve h with
   | .ip a => (isExternalIp (render a)).map some
-  | .gaierror => .ok none
+  | .gaierror => .ok none        -- `except socket_error` (= OSError and every subclass): `None`
+  | .oserror => .ok none
+  | .herror => .ok none
+  | .timeout => .ok none
   | .unicodeErr => .error .unicode
 
 /-- `_is_external` without the cache. -/
@@ -227,10 +234,19 @@ def call (cfg : Cfg) (s : St) (c : CallIn) : St × CallOut :=
     | (false, cache) => directLeg { s1 with cache := cache, cnt := 0 } [] c
   else directLeg { s1 with cnt := 0 } [] c
 
-/-- Inputs of a run: clock advances and calls. -/
+/-- Inputs of a run: clock advances, intercepted calls, and direct questions to the filter
+    (`TrafficFilter.is_allowed`, which shares the cache with the calls). -/
 inductive Input where
   | adv (d : Nat)
   | call (c : CallIn)
+  | decide (h : Str) (hdr : Hdr)
+deriving Repr
+
+/-- A direct question to the filter and its answer. -/
+structure DecObs where
+  host   : Str
+  hdr    : Hdr
+  answer : Bool
 deriving Repr
 
 /-- What an outside observer records for one call. -/
@@ -243,6 +259,7 @@ deriving Repr
 def step (cfg : Cfg) (s : St) : Input → St × Option Obs
   | .adv d => ({ s with now := s.now + d }, none)
   | .call c => let (s', o) := call cfg s c; (s', some ⟨s.now, c, o⟩)
+  | .decide h hdr => ({ s with cache := (isAllowed cfg (mkFilter cfg) s.cache h hdr).2 }, none)
 
 /-- Observable history (oldest first) of a run. -/
 def run (cfg : Cfg) : St → List Input → List Obs
@@ -251,6 +268,15 @@ def run (cfg : Cfg) : St → List Input → List Obs
     match step cfg s i with
     | (s', some o) => o :: run cfg s' is
     | (s', none) => run cfg s' is
+
+/-- Answers to the direct questions of a run (oldest first). -/
+def runDec (cfg : Cfg) : St → List Input → List DecObs
+  | _, [] => []
+  | s, i :: is =>
+    match i with
+    | .decide h hdr =>
+      ⟨h, hdr, (isAllowed cfg (mkFilter cfg) s.cache h hdr).1⟩ :: runDec cfg (step cfg s i).1 is
+    | _ => runDec cfg (step cfg s i).1 is
 
 /-- Final state of a run. -/
 def runSt (cfg : Cfg) : St → List Input → St
